@@ -173,6 +173,12 @@ func (e *executor) Prepare(workflow *Workflow, workflowContext map[string][]byte
 			if !ok {
 				return nil, fmt.Errorf("could not find output id %q in output schema", outputID)
 			}
+			if outputSchemaData != nil {
+				// Like the input scope, this scope comes from the workflow file.
+				if err := linkInputScope(outputSchemaData.Schema()); err != nil {
+					return nil, &ErrInvalidWorkflow{fmt.Errorf("invalid output schema for output %s (%w)", outputID, err)}
+				}
+			}
 			outputSchema = outputSchemaData
 		}
 		outputSchema, err = infer.OutputSchema(
@@ -240,10 +246,11 @@ func (e *executor) processInput(workflow *Workflow) (schema.Scope, error) {
 	return typedInput, nil
 }
 
-// linkInputScope links the references inside the workflow's input scope to the objects of that scope, and makes sure
-// that the scope has the root object it names. The SDK reports a reference to an object that does not exist, and a
+// linkInputScope links the references inside a scope that is read from the workflow file (the workflow's input scope, or
+// the scope of a declared output schema) to the objects of that scope, and makes sure that the scope has the root object
+// it names. The SDK reports a reference to an object that does not exist, and a
 // missing or mislabeled root object, by panicking, since those are programming errors in a schema that is written in
-// Go. The input scope is read from the workflow file, so here they are errors in that file.
+// Go. These scopes are read from the workflow file, so here they are errors in that file.
 func linkInputScope(inputScope schema.Scope) (err error) {
 	defer func() {
 		if r := recover(); r != nil {
